@@ -27,7 +27,16 @@ type spec struct {
 	Ops   int    `json:"ops"`
 	Yield bool   `json:"yield"`
 	Rep   int    `json:"rep"`
-	Kind  string `json:"kind,omitempty"` // "" (mixer) | startonce
+	Kind  string `json:"kind,omitempty"` // "" (mixer) | startonce | heldreply | dialpark
+	// heldreply: Mode dup|recv, QLen = WriteQLen, K = concurrent Sends, Ctx = context (not socket), Sim = simultaneous Sends on a second context
+	// dialpark:  Mode listener|socket (what is closed), Ev = hook event that occupies the accept loop, Pass = connections before it, K = Dials in progress, Ctx = dialers share one socket
+	Mode string `json:"mode,omitempty"`
+	QLen int    `json:"qlen,omitempty"`
+	K    int    `json:"k,omitempty"`
+	Ctx  bool   `json:"ctx,omitempty"`
+	Sim  bool   `json:"sim,omitempty"`
+	Ev   string `json:"ev,omitempty"`
+	Pass int    `json:"pass,omitempty"`
 }
 
 func TestC11(t *testing.T) {
@@ -54,13 +63,41 @@ func TestC11(t *testing.T) {
 			cases = append(cases, mon.CaseSpec{Name: "startonce/" + tr, Spec: spec{Kind: "startonce", Tran: tr, G: 4 + rnd.Intn(6), Ops: r.Pick(12, 30), Rep: rep}})
 		}
 	}
+	// new kinds are appended, so that the cases above keep their indices (and per-case PRNGs)
+	// a reply held by back-pressure while other goroutines use the same context
+	for rep := 0; rep < r.Pick(3, 24); rep++ {
+		for _, p := range []string{"rep", "respondent"} {
+			for _, tr := range []string{"vt", "inproc"} {
+				for _, mode := range []string{"dup", "recv"} {
+					sp := spec{Kind: "heldreply", Proto: p, Tran: tr, Mode: mode, QLen: rnd.Intn(4), K: 2 + rnd.Intn(3), Ctx: rnd.Intn(2) == 0, Sim: rnd.Intn(3) != 0, Rep: rep}
+					cases = append(cases, mon.CaseSpec{Name: "heldreply/" + p + "/" + tr + "/" + mode, Spec: sp})
+				}
+			}
+		}
+	}
+	// Dial calls in progress (on inproc: parked awaiting the next Accept) when the listener or its socket is closed
+	dpProtos := []string{"rep", "req", "pub", "sub", "push", "pull", "bus", "surveyor", "respondent", "star"}
+	for i := 0; i < r.Pick(30, 360); i++ {
+		tr := "inproc"
+		if i%6 == 5 {
+			tr = []string{"ipc", "tcp"}[(i/6)%2]
+		}
+		sp := spec{Kind: "dialpark", Proto: dpProtos[rnd.Intn(len(dpProtos))], Tran: tr, Mode: []string{"listener", "socket"}[rnd.Intn(2)],
+			Ev: []string{"attaching", "attached"}[rnd.Intn(2)], Pass: rnd.Intn(3), K: 1 + rnd.Intn(3), Ctx: rnd.Intn(2) == 0, Rep: i}
+		cases = append(cases, mon.CaseSpec{Name: "dialpark/" + tr + "/" + sp.Mode, Spec: sp})
+	}
 	r.Run(cases, func(c *mon.Case) {
 		sp := c.Spec.(spec)
-		if sp.Kind == "startonce" {
+		switch sp.Kind {
+		case "startonce":
 			startOnce(c, sp)
-			return
+		case "heldreply":
+			heldReply(c, sp)
+		case "dialpark":
+			dialPark(c, sp)
+		default:
+			mix(c, sp)
 		}
-		mix(c, sp)
 	})
 }
 
